@@ -190,6 +190,9 @@ def generate(rng, tier):
         if n <= 4097:
             yield "amf0 enc " + show_all([("O", [(b"k", ("A", [("N", rng.next())] * n)), (b"t", ("S", b"tail"))]), ("B", True)])
             yield "amf0 enc " + show_all([("O", [(("p%d" % j).encode(), ("B", j % 2 == 0)) for j in range(n)])])
+    # names that differ only by letter case (ASCII and non-ASCII) are different names
+    for names in ((b"Width", b"width"), (b"width", b"WIDTH", b"Width"), ("\u00e9t\u00e9".encode(), "\u00c9T\u00c9".encode()), (b"a", b"A", b"b")):
+        yield "amf0 enc " + show_all([("O", [(nm, ("N", rng.next())) for nm in names]), ("A", [("O", [(nm, ("B", True)) for nm in names])])])
     for i in range(n_enc):
         vs = [rand_value(rng, rng.below(5)) for _ in range(rng.range(0, 4))]
         if rng.chance(1, 40):      # sprinkle an inexpressible name / string deep inside
@@ -231,6 +234,11 @@ def generate(rng, tier):
             yield "amf0 decm %02x%s6161" % (m, claim)
         yield "amf0 decm 0a00000001%02xffffffff" % m
         yield "amf0 decm 0300016b%02xffffffff" % m
+    # a large value followed by very many 3-byte units "marker 00 00" for the markers this decoder does not implement (reference,
+    # date, long string, ...): whatever a decoder makes of them, it must not multiply the large value
+    big = "0300016102ffff" + "78" * 65535 + "000009"
+    for m in (0x07, 0x0b, 0x0c, 0x0d, 0x0e, 0x0f, 0x10, 0x11):
+        yield "amf0 decm %s0a000003e8%s" % (big, ("%02x0000" % m) * 1000)
     # very many tiny values: memory per value must stay a small constant (64 KiB of input each)
     for unit in ("03000009", "0800000000000009", "0a00000000", "020000", "0300016b05000009", "05", "0100"):
         yield "amf0 decm " + unit * ((65536 if tier == "thorough" else 16384) // (len(unit) // 2))
